@@ -128,7 +128,12 @@ class LogRS(np.random.RandomState):
         self.calls.append(("random",) + tuple(a)); return super().random(*a, **k)
 
     def choice(self, *a, **k):
-        self.calls.append(("choice", len(a[0]))); return super().choice(*a, **k)
+        n = int(a[0]) if np.isscalar(a[0]) else len(a[0])
+        self.calls.append(("choice", n) + tuple(sorted((kk, str(vv)) for kk, vv in k.items())) + tuple(str(v) for v in a[1:]))
+        return super().choice(*a, **k)
+
+    def permutation(self, x):
+        self.calls.append(("permutation", int(x) if np.isscalar(x) else len(x))); return super().permutation(x)
 
 
 def m_pwg(x, group, ans):
